@@ -59,7 +59,8 @@ Definition judge_class (r : rule) (bs : bytes) : N :=
 (* C03-json-reader-skips-text-bounds - URL, DNSRecordAorAAAA and DNSRecordSRV derive serde::Deserialize, so a url / dns name
    longer than 128 bytes supplied through from_json (of the type or of any enclosing type) is accepted and emitted.  Class
    decided on the bytes: they fail the Conway rule and conform once every `tstr .size (0..128)` (url, dns_name) is widened to
-   any text - nothing else relaxed.  Applied by the driver to the JSON-provenance cases only. *)
+   any text - nothing else relaxed.  REPAIRED in /repo 3ae397a (hand-written readers through new_impl): the driver no longer
+   consults this class - such bytes alarm again; the definition documents how the finding was decided. *)
 Fixpoint widen_text128 (r : rule) : rule :=
   match r with
   | RText 0 128 => RText 0 18446744073709551615
